@@ -23,7 +23,7 @@
    All generated getters are nil-safe: reading a field of a nil message gives the zero value - `og`.
 
    The model mirrors the REPAIRED code (fix: commits db19d12, 2e6bf0f, cd1c178, 8481c0f, 129bafa,
-   e65197d in /repo); the code as it was before is kept in Module Legacy for the refutation witnesses.
+   e65197d, c9b3ae4, b6732bb, 953c29f in /repo); the code as it was before is kept in Module Legacy for the refutation witnesses.
    Definitions only. *)
 From V Require Export Model.Msgs.
 Open Scope N_scope.
@@ -213,13 +213,17 @@ Definition to_ramaps (l : list (option pAddress)) : res (list amap) := mapM to_r
 (* ToIndexMap *)
 Definition to_index_map (l : pIndexMap) : res (list N) :=
   mapM (fun x => if 65535 <? x then Err else Ok x) l.
-(* ToBalance / ToBalances: no error, no limit *)
+(* ToBalance / ToBalances: no error result, no limit of their own *)
 Definition to_balance (o : option pBalance) : list Z := map bigint_of_bytes (og [] o).
 Definition to_balances (o : option pBalances) : list (list Z) := map to_balance (og [] o).
+(* checkBalanceLengths (c9b3ae4): len(b.Bytes()) <= perunio.MaxBigIntLength for every amount; the callers
+   that can return an error apply it *)
+Definition balance_lengths_ok (l : list Z) : bool := bigints_ok l.
 (* ToSubAlloc *)
 Definition to_suballoc (o : option pSubAlloc) : res suballoc :=
   let s := og zPSA o in
   let bals := to_balance (psa_bals s) in
+  if negb (balance_lengths_ok bals) then Err else
   if negb (length (psa_id s) =? 32)%nat then Err else
   im <~ to_index_map (og [] (psa_imap s)) ;;
   Ok (mkSA (psa_id s) bals im).
@@ -228,7 +232,7 @@ Definition to_int_slice (bs : list bytes) : res (list Z) :=
   mapM (fun b => if (length b =? 4)%nat then Ok (s32_of_u32 (dec_be b)) else Err) bs.
 (* ToAllocation: backends; as many backends as assets (2e6bf0f); per asset channel.NewAsset(backend)
    (nil for an unknown backend: error since cd1c178) and sim Asset.UnmarshalBinary (exactly 8 bytes);
-   sub-allocations; balances; Valid() (8481c0f) *)
+   sub-allocations; balances with their length check (c9b3ae4); Valid() (8481c0f) *)
 Definition to_alloc (o : option pAllocation) : res alloc :=
   let a := og zPAl o in
   backends <~ to_int_slice (pal_backends a) ;;
@@ -238,7 +242,9 @@ Definition to_alloc (o : option pAllocation) : res alloc :=
               else if (length (snd p) =? asset_len)%nat then Ok (dec_be (snd p)) else Err)
             (combine backends (pal_assets a)) ;;
   locked <~ mapM to_suballoc (pal_locked a) ;;
-  let al := mkAlloc (map Z.to_N backends) assets (to_balances (pal_balances a)) locked in
+  let bals := to_balances (pal_balances a) in
+  if negb (forallb balance_lengths_ok bals) then Err else
+  let al := mkAlloc (map Z.to_N backends) assets bals locked in
   if alloc_valid al then Ok al else Err.
 
 (* ToApp / ToAppAndData: empty app = NoApp; else sim AppID (a sim address: 64 bytes), Resolve,
@@ -288,11 +294,16 @@ Definition to_update (rs : resolver) (o : option pUpdateMsg) : res (state * N * 
   if 65535 <? pcu_actor cu then Err else
   s <~ to_state rs (pcu_state cu) ;;
   Ok (s, pcu_actor cu, pum_sig u).
-(* ToBaseChannelProposal / ToBaseChannelProposalAcc *)
+(* ToBaseChannelProposal / ToBaseChannelProposalAcc: the funding agreement is held to the limits of
+   the native Balances.Decode (b6732bb) and to the length check of its amounts (c9b3ae4) *)
+Definition fa_dims_ok (fa : list (list Z)) : bool :=
+  (len fa <=? MaxNumAssets) && forallb (fun r => len r <=? MaxNumParts) fa.
 Definition to_baseprop (rs : resolver) (o : option pBaseProp) : res baseprop :=
   let b := og zPBP o in
   bals <~ to_alloc (pbp_bals b) ;;
   let fa := to_balances (pbp_fa b) in
+  if negb (fa_dims_ok fa) then Err else
+  if negb (forallb balance_lengths_ok fa) then Err else
   ad <~ to_app_and_data rs (pbp_app b) (pbp_data b) ;;
   Ok (mkBP (copy_to 32 (pbp_id b)) (pbp_cd b) (copy_to 32 (pbp_nonce b)) (fst ad) (snd ad) bals fa
            (copy_to 256 (pbp_aux b))).
@@ -311,6 +322,8 @@ Definition to_msg (rs : resolver) (m : pmsg) : res msg :=
       b <~ to_baseprop rs (plp_base p) ;;
       part <~ to_wamap (plp_part p) ;;
       peers <~ to_ramaps (plp_peers p) ;;
+      (* 953c29f: the range of the native assertValidNumParts *)
+      if (len peers <? MinNumParts) || (MaxNumParts <? len peers) then Err else
       Ok (MLedgerProp b part peers)
   | PLedgerAcc o =>
       let p := og zPLA o in
@@ -329,6 +342,7 @@ Definition to_msg (rs : resolver) (m : pmsg) : res msg :=
       let parents := map (copy_to 32) (pvp_parents p) in
       imaps <~ mapM (fun om => to_index_map (og [] om)) (pvp_imaps p) ;;
       peers <~ to_ramaps (pvp_peers p) ;;
+      if MaxNumParts <? len peers then Err else              (* 953c29f *)
       Ok (MVirtProp b pr peers parents imaps)
   | PVirtAcc o =>
       let p := og zPVA o in
@@ -463,11 +477,13 @@ Definition from_envelope (e : envelope) : res penv :=
   Ok (mkPEnv (Some s) (Some r) (Some m)).
 
 (* what the protobuf serializer can carry in addition to the native envelope of the format: map keys
-   that fit FromWireAddr, a sync message that has a state (the encoder dereferences it) *)
+   that fit FromWireAddr, a sync message that has a state (the encoder dereferences it), at most
+   MaxNumParts peers in a virtual channel proposal (the native decoder has no such check) *)
 Definition keys_nonneg (m : amap) : bool := forallb (fun e : Z * bytes => (0 <=? fst e)%Z) m.
 Definition msg_pwf (m : msg) : bool :=
   match m with
-  | MLedgerProp _ _ peers | MVirtProp _ _ peers _ _ => forallb keys_nonneg peers
+  | MLedgerProp _ _ peers => forallb keys_nonneg peers
+  | MVirtProp _ _ peers _ _ => forallb keys_nonneg peers && (len peers <=? MaxNumParts)
   | MSync _ None => false
   | _ => true
   end.
@@ -628,6 +644,33 @@ Module Legacy.
            then Ok (mkParams (pp_cd p) parts app nonce (pp_ledger p) (pp_virtual p) (copy_to 256 (pp_aux p)))
            else Panic
     end.
+  (* before c9b3ae4: amounts of any length *)
+  Definition to_alloc_anylen (o : option pAllocation) : res alloc :=
+    let a := og zPAl o in
+    backends <~ to_int_slice (pal_backends a) ;;
+    if negb (length backends =? length (pal_assets a))%nat then Err else
+    assets <~ mapM (fun p : Z * bytes =>
+                if negb (known_backend_z (fst p)) then Err
+                else if (length (snd p) =? asset_len)%nat then Ok (dec_be (snd p)) else Err)
+              (combine backends (pal_assets a)) ;;
+    locked <~ mapM to_suballoc (pal_locked a) ;;
+    let al := mkAlloc (map Z.to_N backends) assets (to_balances (pal_balances a)) locked in
+    if alloc_valid al then Ok al else Err.
+  (* before b6732bb: a funding agreement of any dimension *)
+  Definition to_baseprop (rs : resolver) (o : option pBaseProp) : res baseprop :=
+    let b := og zPBP o in
+    bals <~ Proto.to_alloc (pbp_bals b) ;;
+    let fa := to_balances (pbp_fa b) in
+    ad <~ to_app_and_data rs (pbp_app b) (pbp_data b) ;;
+    Ok (mkBP (copy_to 32 (pbp_id b)) (pbp_cd b) (copy_to 32 (pbp_nonce b)) (fst ad) (snd ad) bals fa
+             (copy_to 256 (pbp_aux b))).
+  (* before 953c29f: any number of peers *)
+  Definition to_ledger_prop (rs : resolver) (o : option pLedgerProp) : res msg :=
+    let p := og zPLP o in
+    b <~ Proto.to_baseprop rs (plp_base p) ;;
+    part <~ Proto.to_wamap (plp_part p) ;;
+    peers <~ to_ramaps (plp_peers p) ;;
+    Ok (MLedgerProp b part peers).
   (* absent signatures came back as empty non-nil slices *)
   Definition to_sigs (l : list bytes) : sigs := map Some l.
   (* readEnvelope called r.Read(data) once (before bfef08b) *)
